@@ -39,11 +39,28 @@ _H = {}
 
 
 class FakeKey:
+    """stand-in for keys.Key on public key bytes: keeps the serialization it was given, knows whether that is the
+    compressed form, and offers both forms (the form not given is an uninterpreted function of the given one)"""
+
     def __init__(self, data=None, *a, **k):
         self.public_byte = data
-        self.compressed = True
+        self.compressed = len(data) != 65
         self.is_private = False
         self.public_hex = None
+
+    @property
+    def public_compressed_byte(self):
+        if self.compressed:
+            return self.public_byte
+        d = self.public_byte
+        odd = (d[64] & 1) == 1
+        return (b'\x03' if bool(odd) else b'\x02') + d[1:33]
+
+    @property
+    def public_uncompressed_byte(self):
+        if not self.compressed:
+            return self.public_byte
+        return b'\x04' + self.public_byte[1:] + _H['sha'](b'y-coordinate-of' + self.public_byte)
 
     @property
     def hash160(self):
@@ -142,6 +159,10 @@ def unlocking_script(ex, name, kind):
         key = ex.bytes(name + '_keyprefix', 1) + ex.bytes(name + '_key', 32)
         ex.assume(s_or(key[0] == 2, key[0] == 3))
         return bytes([sl]) + sig + b'\x21' + key
+    if kind == 'sig_pubkey_uncompressed':
+        sl = ex.choose(name + '_siglen', [71, 72])
+        sig = b'\x30' + ex.bytes(name + '_sig', sl - 1)
+        return bytes([sl]) + sig + b'\x41\x04' + ex.bytes(name + '_keyx', 32) + ex.bytes(name + '_keyy', 32)
     if kind == 'sym1':
         return ex.bytes(name + '_raw', 1)
     if kind == 'sym2':
@@ -261,7 +282,7 @@ def _concrete_stubs(ex):
     if not ex.concrete:
         return
     T, E, S, K, B = _mods()
-    _H.update(h160=E.hash160)
+    _H.update(h160=E.hash160, sha=lambda b: __import__('hashlib').sha256(bytes(b)).digest())
     S.Key, S.Signature = FakeKey, FakeSig
     T.Key, T.Signature, T.Address = FakeKey, FakeSig, FakeAddress
 
@@ -343,6 +364,34 @@ def h_target(ex):
     ex.check(ok, 'target-from-compact-bits')
 
 
+def h_input_witness_bytes(ex, lens):
+    """Input(witnesses=<witness stack in wire format>) - the form the wallet and the cache reload paths use: every item
+    comes back with exactly its bytes, also items of 253 and more bytes (3-byte CompactSize length)"""
+    T, E, S, K, B = _mods()
+    _concrete_stubs(ex)
+    n = ex.choose('items', [1, 2])
+    items = []
+    for k in range(n):
+        ln = ex.choose('len%d' % k, lens)
+        if ln <= 4:
+            items.append(ex.bytes('item%d' % k, ln) if ln else b'')
+        else:
+            items.append(ex.bytes('item%d_head' % k, 2) + bytes((i * 5 + k) & 0xff for i in range(ln - 4)) + ex.bytes('item%d_tail' % k, 2))
+    wb = cs(n)
+    for it in items:
+        wb = wb + cs(len(it)) + it
+    txid = ex.bytes('txid', 32)
+    ex.assume(txid[0] >= 0x80)          # (a txid of ASCII hex digits would be hex-decoded by to_bytes: listed finding)
+    inp = T.Input(prev_txid=txid if not ex.concrete else bytes(txid), output_n=0, witnesses=wb if not ex.concrete else bytes(wb),
+                  witness_type='segwit', script_type='p2wsh', strict=False, value=1000, network='bitcoin')
+    ex.check(len(inp.witnesses) == n, 'witness-stack-item-count')
+    for k, it in enumerate(items):
+        if k < len(inp.witnesses):
+            got = inp.witnesses[k]
+            # (an empty item is represented as the single byte 00 inside the library: listed representation, C18)
+            ex.check(_eqb(got, it) if len(it) else (len(got) in (0, 1)), 'witness-item-bytes-unchanged')
+
+
 def jobs(tier):
     q = tier == 'quick'
     J = []
@@ -370,10 +419,14 @@ def jobs(tier):
             j.cost = 50
             J.append(j)
     # segwit-format transaction whose first input is a signed legacy P2PKH input (empty witness) and whose second is P2WPKH
+    J.append(Job('tx_uncompressed_key_legacy', h_tx_roundtrip, W=80, setup=setup, budget_s=6000,
+                 params=dict(segwit=False, max_in=1, min_in=1, max_out=1, ukinds=['sig_pubkey_uncompressed'], lkinds=['p2pkh'], wkinds=['none'])))
     J.append(Job('tx_mixed_segwit', h_tx_roundtrip, W=80, setup=setup, budget_s=6000,
                  params=dict(segwit=True, mixed=True, max_in=2, min_in=2, max_out=1, ukinds=['sig_pubkey'], lkinds=['p2pkh'], wkinds=['sig_pubkey'])))
     for segwit in (False, True):
         J.append(Job('block_dict_reader_%s' % ('segwit' if segwit else 'legacy'), h_block_dict, W=80, setup=setup, budget_s=3000,
                      params=dict(segwit=segwit, ukinds=['empty', 'sig_pubkey', sym], lkinds=['p2pkh', 'empty', sym], wkinds=['none', 'sig_pubkey', 'sym1', 'emptyitem'])))
+    J.append(Job('input_witness_bytes', h_input_witness_bytes, W=80, setup=setup, budget_s=1500,
+                 params=dict(lens=[0, 1, 2, 252, 253, 300] if q else [0, 1, 2, 75, 76, 252, 253, 254, 300, 520])))
     J.append(Job('block_target', h_target, W=300, setup=setup, budget_s=1500))
     return J
